@@ -109,7 +109,10 @@ Missing == [t |-> "missing", v |-> 0, items |-> <<>>, bt |-> "", d |-> 0]
 ArgSrc(n, p, ctx) == IF Configured(n, p) THEN "node"
                      ELSE IF ctx[p] # Absent THEN "context"
                      ELSE IF HasDefault(n, p) THEN "default" ELSE "missing"
-ArgVal(n, p, ctx) == IF Configured(n, p) THEN Num(n.cfg[p])
+\* a parameter configured as YAML null: the node configuration wins and the value passed is None
+NullCfg == -9999
+CfgVal(n, p) == IF n.cfg[p] = NullCfg THEN Null ELSE Num(n.cfg[p])
+ArgVal(n, p, ctx) == IF Configured(n, p) THEN CfgVal(n, p)
                      ELSE IF ctx[p] # Absent THEN ctx[p]
                      ELSE IF HasDefault(n, p) THEN Default(n, p) ELSE Missing
 
